@@ -1,5 +1,5 @@
 """Configuration of the C14 check (see DESIGN.md section 6)."""
-PROP = {'counts': {'quick': 6, 'thorough': 60},
+PROP = {'counts': {'quick': 7, 'thorough': 60},
  'timeout': {'quick': 600, 'thorough': 3000},
  'rule': 'one case = one loopback cluster of the real packages (primary engine + replication.Manager in '
          'primary mode, replica engine + replication.Manager in replica mode, a TCP forwarder in between) '
